@@ -435,6 +435,70 @@ class Model(object):
             return default
 
 
+class _ConstExpander(ast.NodeTransformer):
+    def __init__(self, mod, cls):
+        self.mod, self.cls = mod, cls
+
+    @staticmethod
+    def _simple(v):
+        if isinstance(v, ast.Constant):
+            return True
+        if isinstance(v, ast.UnaryOp) and isinstance(v.operand, ast.Constant):
+            return True
+        return isinstance(v, ast.Call) and isinstance(v.func, ast.Name) and v.func.id in ('float', 'int', 'str', 'bytes') and all(isinstance(a, ast.Constant) for a in v.args) \
+            and not v.keywords
+
+    def visit_Name(self, n):
+        if isinstance(n.ctx, ast.Load) and self.mod is not None:
+            r = self.mod.resolve_name(n.id)
+            if isinstance(r, tuple) and r[0] == 'const' and self._simple(r[1]):
+                return r[1]
+        return n
+
+    def visit_Attribute(self, n):
+        if isinstance(n.value, ast.Name) and n.value.id in ('self', 'cls') and self.cls is not None and n.attr.isupper():
+            for cur in self.cls.mro():
+                v = cur.attrs.get(n.attr)
+                if v is not None:
+                    return v if self._simple(v) else n
+            return n
+        if isinstance(n.value, ast.Name) and self.mod is not None:
+            r = self.mod.resolve_name(n.value.id)
+            if r is not None and hasattr(r, 'consts') and n.attr in r.consts and self._simple(r.consts[n.attr]):
+                return r.consts[n.attr]
+        return self.generic_visit(n)
+
+
+def expand_consts(node, mod, cls=None):
+    """A copy of the expression with the names of module-level (and self.UPPERCASE class-level) simple constants replaced by their
+    value expressions, so `data == PLUS_INFINITY` and `data == float('inf')` have one text."""
+    import copy
+    return _ConstExpander(mod, cls).visit(copy.deepcopy(node))
+
+
+def resolved_constants(f):
+    """Constant nodes of a function body, including those that module-level / class-level constant names stand for."""
+    ex = _ConstExpander(getattr(f, '_mod', None), getattr(f, '_cls', None))
+    out = []
+    for n in walk_no_nested(f):
+        if isinstance(n, ast.Constant):
+            out.append(n)
+        elif isinstance(n, ast.Name):
+            r = ex.visit_Name(n)
+            if isinstance(r, ast.Constant):
+                out.append(r)
+        elif isinstance(n, ast.Attribute) and isinstance(n.value, ast.Name):
+            r = ex.visit_Attribute(n)
+            if isinstance(r, ast.Constant):
+                out.append(r)
+    return out
+
+
+def unparse_x(node, f):
+    """ast.unparse after expand_consts in the scope of function f."""
+    return ast.unparse(expand_consts(node, getattr(f, '_mod', None), getattr(f, '_cls', None)))
+
+
 def walk_no_nested(node):
     """ast.walk that does not descend into nested function/class definitions or lambdas
     (the root itself may be a FunctionDef)."""
